@@ -461,9 +461,71 @@ def check_c18(rng, n):
                     res["samples"].append({"input": inp, "final": state()})
             finally:
                 h.close()
+            if i % 3 == 0:
+                c18_overlap(rng, res)
     finally:
         drv.close()
     return res
+
+
+def c18_overlap(rng, res):
+    """A cold->hot move requested while another one is still in flight: it must be refused unless the hot
+    tier has room for it on top of what is still owed to the move in flight (never over-committed)."""
+    hot_rate, cold_rate = rng.choice([2, 5, 10]), rng.choice([2, 5, 10, 20])
+    sb, sc, sd = rng.choice([5, 10, 30]), rng.choice([10, 20, 30]), rng.choice([0, 20, 50])
+    hot_cap = sd + rng.choice([sc, sc + sb - 1, sc + sb, sc + sb + 10, sc + 5])
+    cold_cap = sb + sc + rng.choice([0, 50])
+    spec = {"machines": [{"id": "m0", "flops": 10, "bw": 2}], "system_bandwidth": 1, "total_arrays": 4,
+            "max_ingest": 1, "observations": [{"name": nm, "start": 0, "duration": 1, "demand": 1, "rate": 1,
+                                               "ingest_demand": 1, "workflow": {"nodes": [{"id": 0, "comp": 10}], "edges": []}}
+                                              for nm in "bcd"],
+            "hot": {"capacity": hot_cap, "rate": hot_rate}, "cold": {"capacity": cold_cap, "rate": cold_rate},
+            "timestep": "seconds", "planning": "batch", "scheduling": {"kind": "queue"}, "delay": None}
+    inp = {"scenario": "overlapping-c2h", "sizes": [sb, sc, sd], "hot_cap": hot_cap, "cold_cap": cold_cap,
+           "hot_rate": hot_rate, "cold_rate": cold_rate}
+    h = runsim.SimHandle(spec)
+    try:
+        buf, env = h.sim.buffer, h.env
+        hot, cold = buf.hot[0], buf.cold[0]
+        B, C, D = h.sim.instrument.observations
+        for o, sz in ((B, sb), (C, sc), (D, sd)):
+            o.total_data_size = sz
+        cold.observations["stored"] += [B, C]
+        cold.current_capacity -= sb + sc
+        if sd:
+            hot.observations["stored"].append(D)
+            hot.current_capacity -= sd
+        tot0 = hot.current_capacity + cold.current_capacity
+        p1 = env.process(buf.move_cold_to_hot(0))
+        env.run(until=env.now + 1)
+        p2 = env.process(buf.move_cold_to_hot(0))
+        minhot = hot.current_capacity
+        for _ in range(300):
+            if p1.triggered and p2.triggered:
+                break
+            try:
+                env.run(until=env.now + 1)
+            except Exception as e:   # noqa
+                res["violations"].append({"prop": "C18", "kind": "tier-move-raised", "sig": "tier-move-raised:overlap",
+                                          "detail": errname(e), "input": inp})
+                break
+            minhot = min(minhot, hot.current_capacity)
+            if hot.current_capacity + cold.current_capacity != tot0:
+                res["violations"].append({"prop": "C18", "kind": "tier-move-not-conserving", "sig": "tier-move-not-conserving",
+                                          "detail": "overlapping moves: %s + %s != %s" % (
+                                              fr(hot.current_capacity), fr(cold.current_capacity), fr(tot0)), "input": inp})
+                break
+        res["evaluations"] += 1
+        accepted = p2.triggered and p2.value is True
+        bump(res["dist"], "overlap-accepted" if accepted else "overlap-refused")
+        if accepted:
+            res["nontrivial"] += 1
+        if minhot < 0:
+            for pr in ("C18", "C07"):
+                res["violations"].append({"prop": pr, "kind": "tier-move-accepted-without-room", "sig": "tier-move-accepted-without-room",
+                                          "detail": "hot free space fell to %s" % fr(minhot), "input": inp})
+    finally:
+        h.close()
 
 
 # ---------------------------------------------------------------- C14
@@ -655,7 +717,7 @@ def check_c10(rng, n, hashseeds=("0", "1", "2")):
                                             stdout=subprocess.PIPE, stderr=subprocess.DEVNULL, text=True, bufsize=1))
         for i in range(n):
             # stratified by index so that every run has its share of each shape, whatever the seed
-            shape = ("batch", "tie", "delay", "any")[i % 4]
+            shape = ("batch", "tie", "delay", "any", "greedy")[i % 5]
             spec = simgen.gen_spec(rng, pairing="batch" if shape == "batch" else
                                    rng.choice(["batch", "queue", "dynamic", "greedy"]))
             # many simultaneously ready tasks on heterogeneous machines make order matter
@@ -706,6 +768,29 @@ def check_c10(rng, n, hashseeds=("0", "1", "2")):
                     o["workflow"] = {"nodes": nodes, "edges": edges}
                     o["ingest_demand"] = min(o["ingest_demand"], spec["max_ingest"])
                 spec["delay"] = None
+            if shape == "greedy":
+                # GreedySchedulingFromPlan whose plan serialises every task on ONE machine: the ready tasks that do
+                # not get it fall back to "any free machine", and which one must not depend on the hash seed
+                nm = rng.randint(4, 6)
+                spec["machines"] = [{"id": "m%d" % k, "flops": f, "bw": rng.choice([1, 2, 4])}
+                                    for k, f in enumerate(rng.sample([2, 4, 5, 8, 10, 20, 40], nm))]
+                spec["max_ingest"] = min(spec["max_ingest"], 2)
+                spec["planning"], spec["scheduling"] = "static", {"kind": "greedy"}
+                spec["static_seed"] = rng.randint(0, 10 ** 6)
+                spec["delay"] = None
+                sp = {}
+                mx = max(m["flops"] for m in spec["machines"])
+                for o in spec["observations"]:
+                    k = rng.randint(3, 5)
+                    nodes = [{"id": j, "comp": mx * rng.randint(1, 6)} for j in range(k)]
+                    edges = []
+                    if rng.random() < 0.5:
+                        nodes.append({"id": k, "comp": mx * 2})
+                        edges = [[j, k, rng.choice([0, 2, 4])] for j in range(k)]
+                    o["workflow"] = {"nodes": nodes, "edges": edges}
+                    o["ingest_demand"] = min(o["ingest_demand"], spec["max_ingest"])
+                    sp[o["name"]] = {str(nd["id"]): "m0" for nd in nodes}
+                spec["static_plan"] = sp
             outs = []
             for w in workers:
                 w.stdin.write(json.dumps(spec) + "\n")
